@@ -2,6 +2,120 @@ package PKGNAME
 
 // Shared harness support for package mail.
 
+import (
+	"io"
+	"time"
+)
+
 type hxRecW struct{ buf []byte }
 
 func (w *hxRecW) Write(p []byte) (int, error) { w.buf = append(w.buf, p...); return len(p), nil }
+
+// hxRepanic lets engine/replay control panics pass through a recover().
+func hxIsStop(r any) bool {
+	_, ok := r.(svStopT)
+	return ok
+}
+
+type hxErr struct{ s string }
+
+func (e *hxErr) Error() string { return e.s }
+
+var hxSinkErr = &hxErr{"sink failed"}
+var hxProdErr = &hxErr{"producer failed"}
+
+// hxFailW accepts bytes up to offset k and fails from then on. It only
+// counts, so k can stay symbolic.
+type hxFailW struct {
+	k      int
+	acc    int
+	failed bool
+	calls  int
+}
+
+func (w *hxFailW) Write(p []byte) (int, error) {
+	w.calls++
+	if w.failed {
+		return 0, hxSinkErr
+	}
+	room := w.k - w.acc
+	if len(p) <= room {
+		w.acc += len(p)
+		return len(p), nil
+	}
+	w.failed = true
+	w.acc += room
+	return room, hxSinkErr
+}
+
+func hxEnc(i int) Encoding {
+	switch i {
+	case 0:
+		return EncodingQP
+	case 1:
+		return EncodingB64
+	}
+	return NoEncoding
+}
+
+var hxFixedTime = time.Date(2024, 5, 6, 7, 8, 9, 0, time.UTC)
+
+type hxRd struct {
+	data []byte
+	off  int
+}
+
+func (r *hxRd) Read(p []byte) (int, error) {
+	if r.off >= len(r.data) {
+		return 0, io.EOF
+	}
+	n := copy(p, r.data[r.off:])
+	r.off += n
+	return n, nil
+}
+
+var hxPartText = []string{"plain text body = one\r\n.dot line\r\n", "<p>html body</p>\r\n", "third alternative\r\n"}
+var hxPartType = []ContentType{TypeTextPlain, TypeTextHTML, TypeTextPlain}
+var hxFileData = []string{"embed-data-0 \x00\x01\xff", "second file content\r\n"}
+
+// hxBuildShape assembles a message through the public builder API:
+// parts body parts (first via SetBodyString, rest as alternatives), embeds
+// and attachments read from in-memory readers.
+func hxBuildShape(parts, embeds, atts int, msgEnc Encoding, fileEnc Encoding) *Msg {
+	m := NewMsg(WithEncoding(msgEnc))
+	if err := m.From("Al Ice <a@b.c>"); err != nil {
+		svAssert(false, "setup-from")
+	}
+	if err := m.To("d@e.f"); err != nil {
+		svAssert(false, "setup-to")
+	}
+	m.Subject("shape test")
+	m.SetDateWithValue(hxFixedTime)
+	m.SetMessageIDWithValue("fixed.id@example.com")
+	for i := 0; i < parts; i++ {
+		if i == 0 {
+			m.SetBodyString(hxPartType[i], hxPartText[i])
+		} else {
+			m.AddAlternativeString(hxPartType[i], hxPartText[i])
+		}
+	}
+	for i := 0; i < embeds; i++ {
+		name := "emb0.png"
+		if i == 1 {
+			name = "emb1.txt"
+		}
+		if err := m.EmbedReader(name, &hxRd{data: []byte(hxFileData[i])}, WithFileEncoding(fileEnc)); err != nil {
+			svAssert(false, "setup-embed")
+		}
+	}
+	for i := 0; i < atts; i++ {
+		name := "att0.txt"
+		if i == 1 {
+			name = "att1.bin"
+		}
+		if err := m.AttachReader(name, &hxRd{data: []byte(hxFileData[i])}, WithFileEncoding(fileEnc)); err != nil {
+			svAssert(false, "setup-attach")
+		}
+	}
+	return m
+}
